@@ -102,13 +102,20 @@ def make(targets, timeout=3000):
     with build_lock():
         ensure_project()
         t0 = time.time()
-        try:
-            p = subprocess.run(["timeout", str(timeout), "make", f"-j{NPROC}", "--no-print-directory"] + list(targets),
-                               cwd=COQ, stdout=subprocess.PIPE, stderr=subprocess.STDOUT, text=True)
-            ok = p.returncode == 0
-            out = p.stdout
-        except Exception as e:  # pragma: no cover
-            ok, out = False, repr(e)
+        ok, out = False, ""
+        for attempt in range(3):
+            try:
+                p = subprocess.run(["timeout", str(timeout), "make", f"-j{NPROC}", "--no-print-directory"] + list(targets),
+                                   cwd=COQ, stdout=subprocess.PIPE, stderr=subprocess.STDOUT, text=True)
+                ok = p.returncode == 0
+                out = p.stdout
+            except Exception as e:  # pragma: no cover
+                ok, out = False, repr(e)
+            # a failure without any Coq diagnostic (a coqc killed under memory pressure, a launch failure) is
+            # retried; a genuine error names a file ("File ...") or says "Error"
+            if ok or 'File "' in out or "Error" in out or p.returncode == 124:
+                break
+            time.sleep(5 * (attempt + 1))
         return ok, out, time.time() - t0
 
 
@@ -251,7 +258,7 @@ def _run_shard(args):
     return idx, rc, out
 
 
-def eval_bad_indices(tag, requires, prelude, check_fn, cases, shard=400, timeout=900, ty=None):
+def eval_bad_indices(tag, requires, prelude, check_fn, cases, shard=400, timeout=3000, ty=None):
     """`cases` are Gallina terms (strings) of one type; `check_fn` is a Gallina function case->bool.
     Returns (bad_global_indices, errors) where errors are shards that failed to compile.
     Each shard prints `= [i; j; ...]` with the local indices where check_fn is false."""
